@@ -30,7 +30,18 @@ CaseOK ==
                 /\ Ev.genuine
      /\ ~want => Ev.unchanged                                     \* rejected: neither table nor forwarded frames change
 
-TraceNext == l <= Len(Trace) /\ l' = l + 1 /\ Ev.ev = "case" /\ CaseOK = TRUE /\ UNCHANGED vars
+(* {"ev":"deep","records":N,"tampered":D,"accepted":B,"listed":K,"matches":B,"unchanged":B}: the forwarder next to *)
+(* the victim delivers an announcement with N validly signed hop records (its own and N-1 of routers with throwaway   *)
+(* identities between it and the origin); tampered = depth of one record that was altered after signing (0: none).   *)
+(* A router may refuse chains it considers too long - but what it accepts lists exactly the attached records.        *)
+DeepOK ==
+  /\ Ev.accepted => (Ev.tampered = 0 /\ Ev.listed = Ev.records /\ Ev.matches)
+  /\ ~Ev.accepted => Ev.unchanged
+
+TraceNext == /\ l <= Len(Trace) /\ l' = l + 1
+             /\ \/ Ev.ev = "case" /\ CaseOK = TRUE
+                \/ Ev.ev = "deep" /\ DeepOK = TRUE
+             /\ UNCHANGED vars
 
 TraceAccepted ==
   LET dd == TLCGet("stats").diameter
